@@ -57,6 +57,16 @@ let () =
       match expand mode tpl kvs with
       | Some o -> tag ^ " n=" ^ String.concat "," (List.map (fun nd -> string_of_n (count_sub nd o)) (needles_of needles))
       | None -> "FUEL");
+  (* pg.both <page|deny> <tag> <template> <mini template> <needles> <k=v>... : what checks/c33.py observes on the wire:
+     occurrences of each needle in the expansion of the page template, no badly rendered marker, and the exact
+     expansion of the mini template (the client-controlled sections) *)
+  reg "pg.both" (fun (mode :: tag :: tpl :: mini :: needles :: kvs) ->
+      match expand mode tpl kvs with
+      | Some o ->
+        let x = if mini = "-" then "-" else (match expand mode mini kvs with Some m -> hex_of_bytes m | None -> "FUEL") in
+        tag ^ " n=" ^ String.concat "," (List.map (fun nd -> string_of_n (count_sub nd o)) (needles_of needles)) ^
+        " bad=0 x=" ^ x
+      | None -> "FUEL");
   (* lq.all <value> : every quoting function on one C string *)
   reg "lq.all" (fun [v] ->
       let s = bytes_of_hex v in
